@@ -22,9 +22,10 @@ func init() {
 func checkC18(c *Ctx, r *Report) {
 	r.Explanation = "Acquire/release discipline decided on go/ssa for every path: (R1) every connection obtained from sm.Client.Dial* in module code is closed on every path from the successful dial to a return (explicitly or by defer), or handed to the caller, or cached in a field behind a dial-once test; (R2) no `go` statement is reachable from a request handler in module code, so a completed request leaves no task of the module behind. go-diameter starts one watchdog/reader goroutine per dialled connection and ends it when the connection closes (trusted), so R1 bounds those too."
 	r.Undecided = []string{"actual connection/goroutine counts over time (library internals trusted)", "TIME_WAIT sockets of closed connections"}
-	r.Trusted = append(r.Trusted, "go-diameter ties its per-connection goroutines (reader, watchdog) to the connection's lifetime")
+	r.Trusted = append(r.Trusted, "go-diameter ties its per-connection goroutines (reader, watchdog) to the connection's lifetime", "go-diameter sm.(*Client).dwr closes the connection after WatchdogInterval + (MaxRetransmits+1) x RetransmitInterval without a DWA (read from diam/sm/client.go)")
 	r.rule("C18.R1", "every dialled Diameter connection is closed on all paths, returned, or cached behind a dial-once guard", 2)
 	r.rule("C18.R2", "no go statement reachable from a request handler in module code", 1)
+	r.rule("C18.R3", "the connection watchdog cannot give up before the request's own time-out (constants of the sm.Client literals vs the client functions' time.After)", 2)
 
 	ndial := 0
 	for _, f := range c.ModFuncs {
@@ -53,6 +54,7 @@ func checkC18(c *Ctx, r *Report) {
 		})
 	}
 	r.count("dial_sites", ndial)
+	c18WatchdogOutlivesRequest(c, r, "C18.R3")
 
 	// R2
 	entries := httpEntries(c)
@@ -444,4 +446,93 @@ func chanHasCapacityPerRequest(c *Ctx, outer *ssa.Function, ch ssa.Value) bool {
 		}
 	}
 	return false
+}
+
+// c18WatchdogOutlivesRequest (R3): go-diameter's per-connection watchdog
+// (sm.(*Client).watchdog / dwr, read from its source) closes the connection by
+// itself after WatchdogInterval + (MaxRetransmits+1) x RetransmitInterval
+// without a DWA, and then keeps looping unless the close notification had been
+// armed by a read.  A connection here serves one request and is closed by the
+// request (defer conn.Close()) at the latest when its own time-out fires; if
+// the watchdog can give up *before* that time-out, every request a busy peer
+// answers late leaves a watchdog goroutine behind.  The constants are read
+// from the sm.Client literals and from the time.After of the function that
+// dials with that client.
+func c18WatchdogOutlivesRequest(c *Ctx, r *Report, rule string) {
+	// time-out of the request, per client member used for dialling
+	timeoutOf := map[string]int64{}
+	whereOf := map[string]string{}
+	for _, f := range c.ModFuncs {
+		var member string
+		var tmo int64 = -1
+		eachInstr(f, func(_ *ssa.BasicBlock, _ int, ins ssa.Instruction) {
+			call, ok := ins.(*ssa.Call)
+			if !ok {
+				return
+			}
+			obj := calleeObj(&call.Call)
+			if obj == nil || obj.Pkg() == nil {
+				return
+			}
+			if obj.Pkg().Path() == smPath && strings.HasPrefix(obj.Name(), "Dial") && len(call.Call.Args) > 0 {
+				if p, ok := pathOf(call.Call.Args[0]); ok && len(p.Elems) > 0 {
+					member = p.Elems[len(p.Elems)-1]
+				}
+			}
+			if obj.Pkg().Path() == "time" && obj.Name() == "After" && len(call.Call.Args) == 1 {
+				if k, ok := constInt(call.Call.Args[0]); ok && (tmo < 0 || k < tmo) {
+					tmo = k
+				}
+			}
+		})
+		if member != "" && tmo >= 0 {
+			timeoutOf[member] = tmo
+			whereOf[member] = fnKey(f)
+		}
+	}
+	n := 0
+	for _, f := range c.ModFuncs {
+		eachInstr(f, func(_ *ssa.BasicBlock, _ int, ins ssa.Instruction) {
+			al, ok := ins.(*ssa.Alloc)
+			if !ok || !typeIs(al.Type(), smPath, "Client") {
+				return
+			}
+			get := func(name string) (int64, bool) {
+				sts := storesToField(al, name)
+				if len(sts) != 1 {
+					return 0, false
+				}
+				return constInt(sts[0].Val)
+			}
+			// which member of the subscriber context the client is stored in
+			member := ""
+			for _, ref := range *al.Referrers() {
+				if st, ok := ref.(*ssa.Store); ok && st.Val == ssa.Value(al) {
+					if fa, ok := st.Addr.(*ssa.FieldAddr); ok {
+						member = fieldName(fa)
+					}
+				}
+			}
+			n++
+			key := fmt.Sprintf("%s|sm.Client %s", fnKey(f), member)
+			if sts := storesToField(al, "EnableWatchdog"); len(sts) == 0 {
+				r.proven(rule, key, posOf(c, al), "watchdog not enabled for this client")
+				return
+			}
+			wi, ok1 := get("WatchdogInterval")
+			mr, ok2 := get("MaxRetransmits")
+			ri, ok3 := get("RetransmitInterval")
+			tmo, ok4 := timeoutOf[member]
+			if !ok1 || !ok2 || !ok3 || !ok4 {
+				r.viol(rule, key, posOf(c, al), "undecided: the watchdog constants of this client or the time-out of the function that dials with it are not constants")
+				return
+			}
+			giveUp := wi + (mr+1)*ri
+			r.check(giveUp > tmo, rule, key, posOf(c, al), fmt.Sprintf("the watchdog gives up after %.1fs, the request (%s) after %.1fs: the request closes the connection first", float64(giveUp)/1e9, whereOf[member], float64(tmo)/1e9),
+				fmt.Sprintf("the watchdog gives up after WatchdogInterval + (MaxRetransmits+1) x RetransmitInterval = %.1fs, before the request's own time-out of %.1fs (%s): for a peer that answers late the watchdog closes the connection itself and its goroutine is never ended - one task left behind per such request", float64(giveUp)/1e9, float64(tmo)/1e9, whereOf[member]))
+		})
+	}
+	if n == 0 {
+		r.viol(rule, "clients", "", "no sm.Client literal found")
+	}
 }
